@@ -53,6 +53,10 @@ func runC20(c *Ctx) {
 	checkFilesOrdering(c)
 	c.Rule("R20d", "planning does not mutate its input: the shared planning helpers (detachReferences, DetachCycles, SortChanges, dependencies) never store into a field of a schema object through a pointer (they work on struct copies); planning the same change set twice must see the same objects", 2)
 	checkPlanningPurity(c)
+	c.Rule("R20e", ruleTextFileBytesOwned, 1)
+	checkFileBytesOwned(c, "R20e")
+	c.Rule("R20f", ruleTextNoInPlace, 10)
+	checkNoInPlaceInput(c, "R20f")
 
 	sites := collectMapRanges(c)
 	for _, s := range sites {
